@@ -36,7 +36,7 @@ func init() {
 		Real:           []string{"glow timeslot conversions and the production CurrentTimeslot", "production-constant server: rotation loop (hourly check), impact loop, weekly WattTime refresh, report handler"},
 		Stub:           []string{"system clock (bubble clock, 2000-01-01 onwards, forward only)", "WattTime service (harness responder behind http.DefaultTransport)", "socket listeners"},
 		Assumptions:    []string{"the pure conversion functions are exercised at the instants the simulated clock visits plus the listed boundaries (input enumeration, not simulation)", "the acceptance comparison at now<432 is covered by C01 (test flavour); now near 2^32 is unreachable by real rotations"},
-		RequiredProbes: []string{"c20.walk.far-end", "c20.walk.pre-genesis", "c20.cadence.rotated", "c20.cadence.delayed-rotation", "c20.cadence.watttime-fault", "c20.cadence.edge-report", "c20.cadence.beyond-half-width"},
+		RequiredProbes: []string{"c20.walk.far-end", "c20.walk.pre-genesis", "c20.cadence.rotated", "c20.cadence.delayed-rotation", "c20.cadence.watttime-fault", "c20.cadence.edge-report", "c20.cadence.beyond-half-width", "c20.cadence.watttime-outage"},
 	})
 }
 
@@ -167,7 +167,15 @@ func c20Cadence(m *Sim) {
 	// Start somewhere after genesis, not aligned with anything.
 	sleepUntil(genesisUnix + int64(m.C.Int("start-s", 400000)))
 	faults := 0
+	// WattTime outages: for hours or days every request fails (login
+	// included). The rotation cadence must not depend on that service.
+	var outageUntil time.Time
 	w.WattTime = func(path string) (int, time.Duration) {
+		if time.Now().Before(outageUntil) {
+			faults++
+			m.Probe("c20.cadence.watttime-fault")
+			return 1 + m.C.Int("outage-kind", 2), 0
+		}
 		k := m.C.Weighted("watttime", 12, 1, 1)
 		d := time.Duration(0)
 		if m.C.Chance("slow", 1, 6) {
@@ -224,6 +232,13 @@ func c20Cadence(m *Sim) {
 				m.Fail("C20.cadence-run", "startup", "one check period after a late restart the clock is still %d slots past the window offset %d", lag, off)
 			}
 			m.Probe("c20.cadence.late-restart")
+		}
+		// An outage of the WattTime service, preferably beginning shortly before
+		// a rotation is due and lasting long enough to cover the slack.
+		if lag := int64(Slot()) - int64(n.Model.Offset); time.Now().After(outageUntil) &&
+			(m.C.Chance("watttime-outage", 1, 1500) || (lag >= 3150 && lag <= 3200 && m.C.Chance("outage-before-rotation", 1, 12))) {
+			outageUntil = time.Now().Add(time.Duration(6+m.C.Int("outage-h", 67)) * time.Hour)
+			m.Probe("c20.cadence.watttime-outage")
 		}
 		// Sometimes the rotation thread is delayed by up to one check period.
 		if m.C.Chance("delay-rotation", 1, 40) {
